@@ -157,7 +157,7 @@ Emit ==
   /\ ~done
   /\ done' = TRUE
   /\ UNCHANGED <<scen, hooks, hist, last>>
-  /\ PrintT("SCEN " \o ToJson([classes |-> WithBuild(cl), qualnames |-> [n \in DOMAIN cl |-> QualName(cl, n)], top |-> Top, fam |-> scen.fam, depth |-> TyDepth(fcl, Top), cyclic |-> CyclicTable(fcl),
+  /\ PrintT("SCEN " \o ToJson([classes |-> WithBuild(cl), top |-> Top, fam |-> scen.fam, depth |-> TyDepth(fcl, Top), cyclic |-> CyclicTable(fcl),
                                inst |-> SetToSeq({[j |-> j, v |-> Decode(fcl, Top, j)] : j \in Instances(fcl, Top)}),
                                bad |-> SetToSeq(Mutants(fcl, Top))]))
 Spec == Init /\ [][Emit]_gvars
